@@ -186,6 +186,18 @@ class Check:
             self.failed_theorems = [b[0] for b in bad] + esc
             self.notes.append("audit: disallowed axioms %r, escapes %r" % (bad, esc))
             return False
+        # thorough tier: independent re-check of the compiled property modules by leanchecker (replays every
+        # declaration of the .olean through the kernel again, outside the elaborator)
+        if self.tier == "thorough" and os.environ.get("VERIF_NO_LEANCHECKER") != "1":
+            for m in modules:
+                r = sh(["lake", "env", "leanchecker", m], cwd=LEAN, timeout=1800)
+                if r.returncode != 0:
+                    self.proof_ok = False
+                    self.failed_theorems = ["leanchecker rejects " + m]
+                    self.build_log = (r.stdout + r.stderr)[-4000:]
+                    self.notes.append("leanchecker failed on %s" % m)
+                    return False
+            self.notes.append("leanchecker re-checked: " + ", ".join(modules))
         self.cov["discharged"] = len(thms)
         self.proof_ok = True
         return True
